@@ -5,6 +5,7 @@
 -/
 import SarpyModel.Gen.Kernels2
 import SarpyModel.Spec.Kernels2
+import SarpyModel.Spec.Layout
 import SarpyModel.Bridge.Slices
 import Mathlib.Tactic.SplitIfs
 import Mathlib.Tactic.Ring
@@ -103,6 +104,32 @@ theorem blockBytes_whole_bytes (nrows ncols nppbv nppbh bps nbands : Int) :
   simp only [Bool.false_eq_true, if_false]
   have : effBlock nppbh ncols * effBlock nppbv nrows * nbands * (8 * bps) = (effBlock nppbh ncols * effBlock nppbv nrows * nbands * bps) * 8 := by ring
   rw [this, Int.mul_tdiv_cancel _ (by decide)]
+
+/-! ### complexity level of one image segment (`ImageSegmentHeader.get_clevel`): the standard's dimension ladder at max(NROWS, NCOLS) -/
+
+theorem gen_image_clevel (nrows ncols : Nat) :
+    Gen.K2.image_clevel (nrows : Int) (ncols : Int) = .ok (Spec.Layout.clevelForDim (max nrows ncols) : Int) := by
+  have hm : max (nrows : Int) (ncols : Int) = ((max nrows ncols : Nat) : Int) := by omega
+  unfold Gen.K2.image_clevel Spec.Layout.clevelForDim
+  simp only [bind, Except.bind, pure, Except.pure, hm]
+  generalize max nrows ncols = d
+  split_ifs <;> first | rfl | (exfalso; simp_all; omega) | (simp_all <;> omega)
+
+theorem gen_image_clevel0 (nrows ncols : Nat) :
+    Gen.K2.image_clevel0 (nrows : Int) (ncols : Int) = .ok (Spec.Layout.clevelForDim (max nrows ncols) : Int) := by
+  have hm : max (nrows : Int) (ncols : Int) = ((max nrows ncols : Nat) : Int) := by omega
+  unfold Gen.K2.image_clevel0 Spec.Layout.clevelForDim
+  simp only [bind, Except.bind, pure, Except.pure, hm]
+  generalize max nrows ncols = d
+  split_ifs <;> first | rfl | (exfalso; simp_all; omega) | (simp_all <;> omega)
+
+/-- the level of an assembled image is at least the level of each of its segments (why taking the maximum over segments is NOT
+    enough: a 3000-row image in three 1000-row segments needs level 5, each segment alone level 3) -/
+theorem clevelForDim_mono {a b : Nat} (h : a ≤ b) : Spec.Layout.clevelForDim a ≤ Spec.Layout.clevelForDim b := by
+  unfold Spec.Layout.clevelForDim
+  split_ifs <;> omega
+
+example : Spec.Layout.clevelForDim 1000 = 3 ∧ Spec.Layout.clevelForDim 3000 = 5 := by decide
 
 /-! ### pad pixel code width -/
 
